@@ -12,6 +12,14 @@ Case kinds
   err    arbitrary text (mutations / truncations / token soups) through `RailsConfig.from_path` on a temp dir in a
          forked child under a timeout; oracle: loads, or raises ColangParsingError naming the file, in time.
          model: `ErrWrap.wrapCur` on the record of the exception the parser raised.
+  cfg    a whole configuration DIRECTORY (several .co files + config.yml; a library directory on the COLANGPATH with modules,
+         packages, packages with their own config.yml) with imports - repeated in one file, repeated across files, circular,
+         self-imports, of the standard library, of local modules, of a missing module, the same flow in two files, Colang 2.x
+         and 1.0 - plus an edit of the tree that cannot change its meaning (harness/impl/c13_cfg.py).  Each tree through
+         `RailsConfig.from_path` (sometimes `from_content`) in a forked child under a CPU-time and a wall-clock limit, twice in
+         one process.  oracle: ends in time with success or ColangParsingError naming a file; the loaded flows are exactly the
+         flows of the files of the tree (composition); the edit does not change them; a second load gives the same result.
+         model: `ImportLoop.fromPath` (the import fix-point and the parse loop) on the world read off the tree.
   fmt    synthetic exception objects (with/without line/column, odd values) raised by a patched
          `parse_colang_file` inside the real `_parse_colang_files_recursively`; same oracle and model.
 """
@@ -30,8 +38,10 @@ import tempfile
 import time
 import traceback
 
+from ..impl import c13_cfg as cfgk
 from ..translate import c13 as tr
 from ..translate import c13raise as tr_raise
+from ..translate import c13imports as tr_imp
 
 PROPERTY = "C13"
 THEOREM_MODULE = "NemoVerif.Theorems.C13"
@@ -41,10 +51,15 @@ RULE = ("layout cases: a source (one of the ~210 shipped .co files of the tree u
         "error-path cases: truncation / insertion of a token-soup fragment / deletion / replacement at random positions of shipped "
         "files and pure token soups (valid Unicode), plus synthetic exception objects through the real wrapper. non-trivial = the "
         "original parses to at least one flow/message and the edit changed the text (layout), or the loader raised (error path); "
+        "configuration directories: 1-3 .co files + config.yml (+ a COLANGPATH library of modules / packages) with imports drawn from "
+        "the standard library, the local modules, missing modules; repeated / circular / self imports; one edit of the tree from "
+        "{import line written twice, import lines re-ordered, import copied to another file, config.yml entry twice / also as import, "
+        "blank line / trailing blanks / end-of-line comment / CRLF at an import line}. "
         "distinct = distinct case JSON.")
 TRUSTED_BASE = [
     "translator harness/translate/c13.py (colang.lark _NEWLINE / COMMENT / %ignore shapes, PythonIndenter constants, shape of the try/except and of the formatter)",
     "correspondence harness harness/props/C13.py (piece segmentation by the grammar's own lexer with dont_ignore; exception records) + Lean driver Drive/C13.lean",
+    "translator harness/translate/c13imports.py (shape of _join_config's import_paths part, _load_imported_paths, the loop of _parse_colang_files_recursively, from_path) and the world extraction of harness/impl/c13_cfg.py (os.walk order, yaml import_paths, resolution rule) for Models/ImportLoop.lean",
     "Lark's LALR engine and ColangTransformer are functions of the token stream (types, texts of non-`_` terminals); the Colang 1.0 parser uses get_numbered_lines' indentation only through comparisons - both only searched, not proved",
 ]
 ASSUMPTIONS = [
@@ -59,6 +74,7 @@ ERR_TIMEOUT = float(os.environ.get("VERIF_C13_TIMEOUT", "10"))
 def translate():
     info = tr.run()
     info["raise_sites"] = tr_raise.run()
+    info.update(tr_imp.run())
     return info
 
 
@@ -97,7 +113,7 @@ def read_src(src):
 # ---------------------------------------------------------------- generated programs
 
 NAMES = ["a", "b", "c", "greet", "user said", "bot say", "wait", "x1", "Ev", "UtteranceBotAction", "is", "inner flow", "andy", "orca", "iffy"]
-EXPRS = ['1', '"hi"', '$x', '$x + 1', '"a # b"', "'q'", '[1, 2]', '{"k": 1}', 'len($x)', 'True', 'None', '"it\'s"', '3.5']
+EXPRS = ['"to define it"', '1', '"hi"', '$x', '$x + 1', '"a # b"', "'q'", '[1, 2]', '{"k": 1}', 'len($x)', 'True', 'None', '"it\'s"', '3.5']
 
 
 def _ind(rng, style):
@@ -931,6 +947,10 @@ def gen_cases(rng, tier):
             cases.append({"kind": "err", "src": {"text": ""}, "seed": rng.randrange(10 ** 9), "n": 1, "version": rng.choice(["1.0", "2.x"])})
     for _ in range(n_fmt):
         cases.append(gen_fmt_case(rng))
+    for _ in range(300 if quick else 2500):
+        # whole configuration directories: several .co files + config.yml + imports (repeated, circular, missing, standard
+        # library, local modules), Colang 2.x and 1.0, each with an edit that cannot change the meaning
+        cases.append(cfgk.gen_cfg_case(rng))
     return cases
 
 
@@ -1403,6 +1423,13 @@ def run_fmt(case):
         shutil.rmtree(d, ignore_errors=True)
 
 
+def count_flow_headers(text):
+    """number of `flow ...` definitions written in a Colang 2.x text (start of a line, outside triple-quoted strings)"""
+    t = re.sub(r'"""[\s\S]*?"""', '""', text)
+    t = re.sub(r"'''[\s\S]*?'''", "''", t)
+    return len(re.findall(r"^flow[ \t]+\S", t, re.M))
+
+
 def run_impl(case):
     k = case["kind"]
     if k == "tok":
@@ -1412,6 +1439,8 @@ def run_impl(case):
     if k in ("v2", "v1"):
         content = read_src(case["src"])
         obs = run_layout_v2(content, case["edits"], want_ast=True) if k == "v2" else run_layout_v1(content, case["edits"])
+        if k == "v2":
+            obs["headers"] = count_flow_headers(content)
         if "ast" in obs and "ok" not in obs["ast"]:
             # generated programs are valid by construction and contain blank lines: does the same text without them parse?
             obs["deblank_ok"] = "ok" in parse_real("\n".join(l for l in content.split("\n") if l.strip()), "2.x" if k == "v2" else "1.0")
@@ -1422,12 +1451,16 @@ def run_impl(case):
             return sweep_file(content, version)
         obs = run_layout_v2(content, edits, want_ast=True) if version == "2.x" else run_layout_v1(content, edits)
         obs["edits"] = edits
+        if version == "2.x":
+            obs["headers"] = count_flow_headers(content)
         # keep observations small: the piece lists of big files are only needed by the model requests
         return obs
     if k == "err":
         return run_err(case)
     if k == "fmt":
         return run_fmt(case)
+    if k == "cfg":
+        return cfgk.run_cfg(case, canon_ast)
     raise ValueError(k)
 
 
@@ -1465,6 +1498,8 @@ def _edits_of(case, obs):
 
 def model_requests(case, obs):
     k = case["kind"]
+    if k == "cfg":
+        return cfgk.model_requests_cfg(case, obs)
     if obs.get("sweep"):
         return []
     if obs.get("version") == "2.x" and k in ("tok", "v2", "file"):
@@ -1584,6 +1619,8 @@ def _unsafe(x):
 
 def compare(case, obs, mouts):
     k = case["kind"]
+    if k == "cfg":
+        return cfgk.compare_cfg(case, obs, mouts)
     mouts = _unsafe(mouts)
     if obs.get("version") == "2.x" and k in ("tok", "v2", "file"):
         if mouts and "text" in mouts[-1]:
@@ -1670,6 +1707,8 @@ def compare(case, obs, mouts):
 
 def oracle(case, obs):
     k = case["kind"]
+    if k == "cfg":
+        return cfgk.oracle_cfg(case, obs)
     if obs.get("sweep"):
         b = obs.get("bad") or obs.get("known_bad")
         if b:
@@ -1693,6 +1732,9 @@ def oracle(case, obs):
             return f"the program parses without its blank lines but not with them: {obs['ast'].get('exc')}: {obs['ast'].get('msg', '')[:120]}"
         if "ast" not in obs or "ok" not in obs["ast"]:
             return None  # the original is not a valid program: nothing is claimed
+        if obs.get("headers") is not None and obs["ast"].get("n") != obs["headers"]:
+            # (a file that is silently skipped / cut short parses "successfully" to nothing - on both sides of every layout edit)
+            return f"the file defines {obs['headers']} flows (`flow ...` at the start of a line) but parses to {obs['ast'].get('n')}"
         # NOTE: whether the edited text re-segments to the edited pieces (`reseg_same`) is NOT a precondition here: it is computed
         # with the lexer under test, and a lexer change that glues an end-of-line comment to the following line break would
         # excuse itself.  The edits are layout edits by construction (apply_edit_v2 checks the neighbouring pieces).
@@ -1782,12 +1824,17 @@ def _last_line_is_bodyless_define(content):
 
 def signature(case, obs, msg):
     k = case["kind"]
+    if k == "cfg":
+        return cfgk.signature_cfg(case, obs, msg)
     if obs.get("sweep"):
         return "eol-comment-pre-expansion-v2" if obs.get("known_bad") and not obs.get("bad") else None
     if k in ("err", "fmt") and obs.get("outcome") == "raised":
         if obs.get("site") == "format_colang_parsing_error_message" and obs.get("cls") in ("AttributeError", "TypeError", "IndexError"):
             return "error-formatter-attribute-assumption"
         if obs.get("site") == "_load_imported_paths" and obs.get("cls") == "ValueError":
+            m = re.search(r"Import path `(.*)` could not be resolved", obs.get("msg", ""))
+            if m and cfgk.resolves_by_rule(m.group(1)):
+                return None  # the loader fails to resolve an import that the documented rule resolves: not the open finding
             return "unresolved-import-valueerror"
         return None
     if k == "err" and obs.get("outcome") == "timeout":
@@ -1813,6 +1860,8 @@ def signature(case, obs, msg):
 
 def nontrivial(case, obs):
     k = case["kind"]
+    if k == "cfg":
+        return obs["base"]["outcome"] == "ok" and len(obs["base"].get("parsed", [])) >= 2 or obs["base"]["outcome"] == "raised"
     if obs.get("sweep"):
         return obs.get("tried", 0) > 0
     if k == "tok":
@@ -1826,6 +1875,8 @@ def nontrivial(case, obs):
 
 def tags(case, obs):
     k = case["kind"]
+    if k == "cfg":
+        return cfgk.tags_cfg(case, obs)
     t = ["kind:" + k + (":" + obs["version"] if "version" in obs and k == "file" else "")]
     if obs.get("sweep"):
         t.append("sweep-variants:%d" % (obs.get("tried", 0) // 50 * 50))
@@ -1864,6 +1915,12 @@ def tags(case, obs):
 
 def shrink(case):
     k = case["kind"]
+    if k == "cfg":
+        # few candidates per round, the most aggressive first: the runner evaluates every candidate of a round, and a candidate
+        # that still hangs costs the whole CPU limit
+        import itertools
+        yield from itertools.islice(cfgk.shrink_cfg(case), 12)
+        return
     if k == "file" and not case.get("sweep"):
         # explicit form: the same source with the edits spelled out (then the edits and the text can be shrunk)
         try:
@@ -1986,4 +2043,5 @@ def escalate(rng, focus, tier):
     for _ in range(600):
         cases.append({"kind": "v1", "src": {"text": gen_v1_comment_program(rng)},
                       "edits": [gen_edit_v1(rng, aim="comment") for _ in range(rng.choice([1, 1, 2]))]})
+    cases = [cfgk.gen_cfg_case(rng) for _ in range(400)] + cases
     return comment_sweep_cases() + cont_sweep_cases() + pre_sweep_cases() + cases
